@@ -36,6 +36,7 @@ struct C25 : drv::Harness
 	{
 		Plan p; drv::draw_sched_knobs(p, rng, true);
 		World::draw_net_knobs(p, rng);
+		p.knobs["tweak_outbound"] = rng.chance(0.5);
 		p.knobs["initiator"] = rng.below(2);
 		p.knobs["pm"] = rng.chance(0.7) ? pm_thread : pm_pipeline;
 		p.knobs["pers"] = rng.chance(0.5) ? 2 : 1;
